@@ -2011,4 +2011,31 @@ theorem from_trimesh3_moved (ρ : K) (gc gc' : V3 K) (q : Quat K) (hq : UnitQ q)
     rw [hcom, coneInertia_moved sq q hq, conj3_mscale, conj3_mscale]
     repeat' constructor
 
+/-- **`from_trimesh` commutes with `transform_by` (3-D, closed surfaces, through the eigen-decomposition)**: if
+`from_trimesh` hands `(c, μ, I)` to `with_inertia_matrix` and the solver returns an orthonormal eigen-decomposition with
+non-negative eigenvalues, then the mesh moved by the isometry `m` (unit quaternion) gets exactly the centre, mass and
+reconstructed tensor of `from_trimesh(mesh).transform_by(m)`. -/
+theorem from_trimesh3_moved_transformBy (hs : LawfulSqrt sq) (eig : M3 K → V3 K × M3 K) (ρ : K) (gc gc' : V3 K) (m : Iso3 K)
+    (hq : UnitQ (⟨m.qi, m.qj, m.qk, m.qw⟩ : Quat K)) (ts : List (Triangle3 K)) (hc : Closed3 ts)
+    (c : V3 K) (μ : K) (I : M3 K) (hraw : @fromTrimesh3Raw K (fieldNum K sq) ρ gc ts = some (c, μ, I))
+    (hD : EigenDecomp sq I (eig I).1 (eig I).2) (e1 : 0 ≤ (eig I).1.x) (e2 : 0 ≤ (eig I).1.y) (e3 : 0 ≤ (eig I).1.z) :
+    letI := fieldNum K sq
+    let p := (MP3.withInertiaMatrix eig c μ I).transformBy m
+    fromTrimesh3Raw ρ gc' (ts.map (moveTri3 sq ⟨m.qi, m.qj, m.qk, m.qw⟩ m.t)) = some (p.com, massOf3 p, p.reconstruct) := by
+  intro p
+  obtain ⟨r1, r2, r3, -, -⟩ := with_inertia_matrix_recompose sq hs c μ I (eig I).1 (eig I).2 hD e1 e2 e3
+  obtain ⟨t1, -, t3, t4⟩ := transformBy3_covariant sq (@MP3.withInertiaMatrix K (fieldNum K sq) eig c μ I) m
+  have hp : (@MP3.withInertiaMatrix K (fieldNum K sq) eig c μ I) = @MP3.withInertiaEigen K (fieldNum K sq) c μ (eig I).1 (eig I).2 := rfl
+  rw [from_trimesh3_moved sq ρ gc gc' _ hq m.t ts hc, hraw]
+  simp only [Option.map_some, Option.some.injEq, Prod.mk.injEq]
+  refine ⟨?_, ?_, ?_⟩
+  · show _ = p.com
+    rw [show p.com = @Iso3.act K (fieldNum K sq) m (@MP3.withInertiaMatrix K (fieldNum K sq) eig c μ I).com from t3, hp, r3]
+    simp only [Iso3.act, rot_eq_mulVec sq m hq, V3.add, aff3]
+  · show μ = massOf3 p
+    rw [show massOf3 p = massOf3 (@MP3.withInertiaMatrix K (fieldNum K sq) eig c μ I) from t1, hp, r2]
+  · show _ = @MP3.reconstruct K (fieldNum K sq) p
+    rw [show @MP3.reconstruct K (fieldNum K sq) p = _ from t4, hp, r1]
+    rfl
+
 end C13
